@@ -118,7 +118,7 @@ fn generate_track(track: &Track) -> Vec<u8> {
                 }
             },
             EventType::PitchBend => {
-                let v = e.v1;
+                let v = e.v1.clamp(0, 0x3FFF); // 14 bits: a value outside the range is written as its nearest end, not wrapped
                 let msb = ((v >> 7) & 0x7F) as u8;
                 let lsb = ((v >> 0) & 0x7F) as u8;
                 // println!("PB={}(0x{:02x}{:02x})", v, msb, lsb);
